@@ -162,9 +162,10 @@ package gorm
 
 //@ func (*DB).Model (*DB).Table (*DB).Omit (*DB).MapColumns (*DB).Where (*DB).Not (*DB).Or (*DB).Joins (*DB).InnerJoins (*DB).Group (*DB).Having (*DB).Order (*DB).Limit (*DB).Offset (*DB).Scopes (*DB).Preload (*DB).Attrs (*DB).Assign (*DB).Unscoped
 //@   tags C06
-//@   requires db.clone > 0
+//@   when db.clone > 0
 //@   modifies nothing
 //@   ensures fresh-result: fresh(result)
+//@   ensures chain-in-progress: result.clone == 0 && result.Statement != nil && result.Statement.DB == result [C06,C16,C15]
 //@   ensures parent-handle-untouched: objUnchanged(db) [C06,C13,C18,C05]
 //@   ensures parent-statement-untouched: objUnchanged(db.Statement) [C06,C13,C18,C05]
 //@   ensures keeps-skiphooks: result.Statement.SkipHooks == db.Statement.SkipHooks [C13]
@@ -174,9 +175,10 @@ package gorm
 
 //@ func joins
 //@   tags C06
-//@   requires db.clone > 0
+//@   when db.clone > 0
 //@   modifies nothing
 //@   ensures fresh-result: fresh(result)
+//@   ensures chain-in-progress: result.clone == 0 && result.Statement != nil && result.Statement.DB == result [C06,C16,C15]
 //@   ensures parent-handle-untouched: objUnchanged(db) [C06,C13,C18,C05]
 //@   ensures parent-statement-untouched: objUnchanged(db.Statement) [C06,C13,C18,C05]
 //@   ensures keeps-skiphooks: result.Statement.SkipHooks == db.Statement.SkipHooks [C13]
@@ -497,3 +499,66 @@ package gorm
 //@ iface ConnPoolBeginner.BeginTx(recv, ctx, opts)
 //@   abstract connection pool plug-in; the begun transaction lives outside gorm's memory
 //@   pure
+
+//@ # ---------- chain methods on a chain in progress (clone == 0): they continue on the same handle ----------
+//@ funcalt chained (*DB).Model (*DB).Table (*DB).Omit (*DB).MapColumns (*DB).Where (*DB).Not (*DB).Or (*DB).Joins (*DB).InnerJoins (*DB).Group (*DB).Having (*DB).Order (*DB).Limit (*DB).Offset (*DB).Scopes (*DB).Preload (*DB).Attrs (*DB).Assign (*DB).Unscoped joins
+//@   tags C06
+//@   when db.clone <= 0
+//@   assumes chain-handle-well-formed: db.Statement != nil && db.Statement.DB == db
+//@   modifies db.Statement.Model, db.Statement.Table, db.Statement.TableExpr, db.Statement.Omits, db.Statement.ColumnMapping, db.Statement.Preloads, db.Statement.attrs, db.Statement.assigns, db.Statement.Unscoped, db.Statement.SQL, db.Statement.Vars, db.Statement.Dest, db.Statement.Joins, db.Statement.scopes, db.Statement.Joins[*], db.Statement.scopes[*], db.Statement.Clauses[*], db.Statement.Preloads[*], db.Error
+//@   ensures same-handle: result == db
+//@   ensures still-chain-in-progress: result.clone <= 0 && result.Statement != nil && result.Statement.DB == result && result.Statement == old(db.Statement)
+//@   ensures keeps-skiphooks: result.Statement.SkipHooks == old(db.Statement.SkipHooks) [C13]
+//@   ensures keeps-context: result.Statement.Context == old(db.Statement.Context) [C18]
+//@   ensures keeps-connpool: result.Statement.ConnPool == old(db.Statement.ConnPool) [C05]
+
+//@ # ---------- C16: FirstOrInit never writes, FirstOrCreate writes at most once, both look up the first match by primary key ----------
+//@ ghost creates updatesCalls limitedTo1 orderedByPK viaOnConflict
+//@ event call (*DB).Create
+//@   do creates = creates + 1
+//@ event call (*DB).Updates
+//@   do updatesCalls = updatesCalls + 1
+//@ event call (*DB).Limit
+//@   in gorm.(*DB).FirstOrCreate gorm.(*DB).FirstOrInit
+//@   do limitedTo1 = ite(arg1 == 1, ref(result), 0)
+//@ event call (*DB).Order
+//@   in gorm.(*DB).FirstOrCreate gorm.(*DB).FirstOrInit
+//@   do orderedByPK = ite(ref(arg0) == limitedTo1 && is(arg1, clause.OrderByColumn) && arg1.(clause.OrderByColumn).Column == clause.Column{Table: clause.CurrentTable, Name: clause.PrimaryKey} && !arg1.(clause.OrderByColumn).Desc, ref(result), 0)
+//@ site first-match-lookup
+//@   match call gorm.(*DB).Find
+//@   in gorm.(*DB).FirstOrCreate gorm.(*DB).FirstOrInit
+//@   min-sites 2
+//@   entry limitedTo1 == 0 && orderedByPK == 0
+//@   assert one-row-in-primary-key-order: orderedByPK != 0 && ref(arg0) == orderedByPK [C16]
+//@ func (*DB).FirstOrCreate
+//@   tags C16
+//@   assumes handle-well-formed: db.clone > 0 || (db.Statement != nil && db.Statement.DB == db)
+//@   ensures at-most-one-write: creates + updatesCalls <= old(creates) + old(updatesCalls) + 1
+//@ func (*DB).FirstOrInit
+//@   tags C16
+//@   assumes handle-well-formed: db.clone > 0 || (db.Statement != nil && db.Statement.DB == db)
+//@   ensures never-writes: creates == old(creates) && updatesCalls == old(updatesCalls)
+
+//@ # ---------- C16: Save's inserts are upserts over all fields ----------
+//@ event call (*DB).Clauses
+//@   in gorm.(*DB).Save
+//@   do viaOnConflict = ref(result)
+//@ site save-upserts-all-fields
+//@   match call gorm.(*DB).Clauses
+//@   in gorm.(*DB).Save
+//@   min-sites 2
+//@   assert on-conflict-update-all: len(arg1) == 1 && is(arg1[0], clause.OnConflict) && arg1[0].(clause.OnConflict).UpdateAll [C16]
+//@ site save-fallback-is-the-upsert
+//@   match call gorm.(*DB).Create
+//@   in gorm.(*DB).Save
+//@   min-sites 1
+//@   entry viaOnConflict == 0
+//@   assert through-on-conflict: viaOnConflict != 0 && ref(arg0) == viaOnConflict [C16]
+
+//@ # handle identity fields are set when a handle is created and never afterwards
+//@ immutable DB.clone
+//@   writers gorm.(*DB).Session gorm.(*DB).getInstance gorm.Open gorm.(*DB).*
+//@   tags C16 C15 C06
+//@ immutable Statement.DB
+//@   writers gorm.(*DB).Session gorm.(*DB).getInstance gorm.Open gorm.(*DB).* gorm.(*Statement).clone
+//@   tags C16 C15 C06
